@@ -388,7 +388,32 @@ impl Session {
             ["wsubmit", rest @ ..] => {
                 let text = rest.first().and_then(|h| unhex(h)).unwrap_or_default();
                 let t2 = text.clone();
-                self.page.get_or_insert_with(crate::web::Pair::new).event(move |p| p.submit(&text), move |p| p.submit(&t2))
+                let opaque = first_word_is(&text, &["INTERNALS", "STATS"]);
+                let r = self.page.get_or_insert_with(crate::web::Pair::new).event(move |p| p.submit(&text), move |p| p.submit(&t2));
+                if opaque {
+                    // the text printed by INTERNALS / STATS is not modelled (the adapter-vs-core comparison above saw the real
+                    // text on both sides): show the run of print records as the model's single opaque record
+                    let mut out: Vec<String> = vec![];
+                    let mut in_run = false;
+                    for part in r.split(' ') {
+                        if part.starts_with("print:") || (in_run && part.starts_with("ui=print:")) {
+                            if !in_run {
+                                out.push(format!("warning:{}", hex("<opaque>\n")));
+                                in_run = true;
+                            }
+                        } else if let Some(rest) = part.strip_prefix("ui=print:") {
+                            let _ = rest;
+                            out.push(format!("ui=warning:{}", hex("<opaque>\n")));
+                            in_run = true;
+                        } else {
+                            in_run = false;
+                            out.push(part.to_string());
+                        }
+                    }
+                    out.join(" ")
+                } else {
+                    r
+                }
             }
             ["wbreak"] => self.page.get_or_insert_with(crate::web::Pair::new).event(|p| p.break_now(), |p| p.break_now()),
             ["wtick"] => self.page.get_or_insert_with(crate::web::Pair::new).event(|p| p.tick(), |p| p.tick()),
